@@ -127,6 +127,7 @@ def check_program(prog, cap):
     cond_walrus = dyn_common.conditional_walrus_sites(d.tree)
     star_kw = dyn_common.star_before_keyword_walrus(d.tree)
     own_iter = dyn_common.own_iterable_reads(d.tree)
+    dead = dyn_common.dead_code_positions(d.tree)
     routed = set()
     for names in list(ins.global_decl.values()) + list(ins.nonlocal_decl.values()):
         routed.update(names)
@@ -163,7 +164,8 @@ def check_program(prog, cap):
                         problems.append(('star-argument-evaluated-before-keyword-walrus', '*%s at %s: supp lists the walrus %s of a keyword argument that CPython evaluates afterwards' % (name, pos, decl)))
                     elif rid in ins.class_comp_reads:
                         problems.append(('class-body-comprehension-sees-class-names', 'read %s at %s inside a comprehension in a class body: supp lists the class-level binding %s, CPython skips the class scope there' % (name, pos, decl)))
-                    elif decl in (nrv.sites(pos, name) or ()):
+                    elif decl in (nrv.sites(pos, name) or ()) or dyn_common.in_dead_code(dead, decl):
+                        # (the second test covers dead code that would crash if it ran: there the return-neutralised run aborts)
                         after_return.add(decl)
                         problems.append(('phantom-after-return', 'supp lists %s for read %s at %s; it reaches the read only if return statements are treated as no-ops' % (decl, name, pos)))
                     elif pos in split_reads and name in split_reads[pos]:
